@@ -208,6 +208,7 @@ class Engine(Interp):
                 if h is None:
                     raise OutOfSubset(f"no assumed contract for {recv.cls}.{name}")
                 self.note_assumed(f"{recv.cls}.{name}")
+                self.dep_kwargs(name, kwargs)
                 return h(self, recv, args, node)
             fi = self.src.find_method(recv.cls, name)
             if fi is None:
@@ -219,6 +220,7 @@ class Engine(Interp):
         if isinstance(recv, ClassV):
             h = self.spec.dep_classes.get(recv.name, {}).get(name)
             if h:
+                self.dep_kwargs(name, kwargs)
                 return h(self, recv, args, node)
             raise OutOfSubset(f"class method {recv.name}.{name}")
         if isinstance(recv, str) or (isinstance(recv, Sym) and recv.kind == 'str'):
@@ -242,6 +244,15 @@ class Engine(Interp):
         if what not in self.assumed_calls:
             self.assumed_calls.append(what)
 
+    DEP_KWARGS_MODELLED = {'concat': {'ignore_index'}}
+
+    def dep_kwargs(self, name, kwargs):
+        """the assumed contracts of dependency calls are stated for the positional form used in the tree; a keyword argument
+        they do not model (nx.relabel_nodes(..., copy=False) mutates its argument!) must not be silently ignored"""
+        for k in (kwargs or {}):
+            if k not in self.DEP_KWARGS_MODELLED.get(name, ()):
+                raise OutOfSubset(f"keyword argument {k}= of the dependency call {name}() is not covered by its assumed contract")
+
     def call_opaque(self, recv, name, args, kwargs, node):
         w = recv.what
         if w == 'module:copy' and name == 'copy':
@@ -260,6 +271,7 @@ class Engine(Interp):
             return w_
         if w == 'module:pd' and name in self.spec.dep_classes.get('module:pd', {}):
             self.note_assumed(f"pandas.{name}")
+            self.dep_kwargs(name, kwargs)
             return self.spec.dep_classes['module:pd'][name](self, recv, args, node)
         if w in ('module:logging', 'module:LOGGER', 'module:logger'):
             return None
@@ -274,6 +286,7 @@ class Engine(Interp):
         h = self.spec.dep_classes.get(w, {}).get(name)
         if h:
             self.note_assumed(f"{w}.{name}")
+            self.dep_kwargs(name, kwargs)
             return h(self, recv, args, node)
         if w.startswith('path') and name == 'as_posix':
             return Sym('str', z3.Function('posix_of', I, I)(recv.arg) if getattr(recv, 'arg', None) is not None else z3.Int(fresh_name('posix')))
